@@ -60,9 +60,13 @@ def classify_loop(ts, loop, names, marker):
         if marker not in text:
             continue
         key_e = val_e = None
+        seen_marker = False
         for n in outp.nodes:
             if isinstance(n, N.TemplateData):
+                seen_marker = seen_marker or marker in n.data
                 continue
+            if not seen_marker:
+                continue    # text before the statement itself (a comment line naming the option)
             used = j2front.names_in(n)
             if key_e is None and names and names[0] in used:
                 key_e = n
@@ -119,6 +123,12 @@ def rule_both_sides(ctx, ts):
         "per option: both loops iterate options.items() unfiltered, the assertion compares with ==, and the name and "
         "value transformations are the same expressions on both sides",
     )
+    L = "R-C17-LEXICAL"
+    ctx.rule(
+        L,
+        "inside the per-option loops of the support header and of the type headers the option value reaches the generated text only "
+        "through to_static_assertion_value (an integer), never raw: identical option sets must yield headers that compile together",
+    )
     S = "R-C17-SCOPE"
     ctx.rule(
         S,
@@ -149,6 +159,31 @@ def rule_both_sides(ctx, ts):
                    "" if direct else "the per-option line sits under an inner condition", loop.lineno)
             skips = [n for n in loop.find_all((ts.nodes.Continue, ts.nodes.Break))]
             ctx.ob(R, rel, f"{lang}: {side} loop has no continue/break", not skips, "", loop.lineno)
+        # lexical safety: an option value is free text from the user's YAML (documented values carry their own double quotes:
+        # variable_array_type_include: '"my.hpp"'), so it may reach the header only as the integer to_static_assertion_value
+        # makes of it.  Printed raw it ends the string literal it sits in, and headers generated from *identical* option sets
+        # stop compiling.  (A `//` comment is the one context that a quote cannot leave.)
+        for side, loop, names_, rel in (("definition", dl, dn, sup.rel), ("assertion", al, an, base.rel)):
+            if len(names_) < 2:
+                continue
+            vvar = names_[1]
+            for outp, _direct in loop_output_exprs(ts, loop):
+                line_text = ""
+                for e in outp.nodes:
+                    if isinstance(e, ts.nodes.TemplateData):
+                        line_text = (line_text + e.data).rsplit("\n", 1)[-1]
+                        continue
+                    if vvar in j2front.names_in(e):
+                        as_int = isinstance(e, ts.nodes.Filter) and e.name.split(".")[-1] == "to_static_assertion_value" \
+                            and isinstance(e.node, ts.nodes.Name) and e.node.name == vvar
+                        in_line_comment = "//" in line_text
+                        ok_ = as_int or in_line_comment
+                        ctx.ob(L, rel, f"{lang}: {side} prints the option value `{_alpha(xs(e), names_)}` only as an integer constant", ok_,
+                               ("integer" if as_int else "inside a // comment") if ok_ else
+                               "the raw option value is pasted into the header text: a value that carries double quotes (the documented form of the "
+                               "*_include options) terminates the string literal, and the header fails to compile against the support header "
+                               "generated from the very same options", getattr(e, "lineno", loop.lineno))
+                    line_text += "X"
         if ak is None or av is None:
             ctx.ob(R, base.rel, f"{lang}: assertion uses the option name and value", False, "static_assert does not mention both loop variables", al.lineno)
             continue
